@@ -16,7 +16,8 @@ Mirrors (line by line, defects included)
 
 Python `dict` = association list in insertion order; a name is a `List Char`; `str.lower` is the generated ASCII table
 `lowerTable`; the value of a `SymbolAttributes` object is a natural number (its `tag`; `0` = the
-`SymbolAttributes(BasicType.DEFERRED)` default of `setdefault`); values are held by value (every `clone()` in the code is a
+`SymbolAttributes(BasicType.DEFERRED)` default of `setdefault`); dictionary values are naturals too (the harness maps
+`0, 1, 2, 3` to the falsy payloads `0, '', (), False`); values are held by value (every `clone()` in the code is a
 copy; the identity side of "independent copies" is checked by the correspondence run, see `harness/props/c12.py`).
 Core Lean only.
 -/
@@ -100,12 +101,14 @@ inductive Op where
   | setdefault (i : Nat) (k : Name) (h : Option Nat)
   | update (i : Nat) (kvs : List (Name × Nat))      -- `t.update({k: handle, …})`
   | get (i : Nat) (k : Name)
+  | getd (i : Nat) (k : Name) (d : Nat)             -- `t.get(k, d)` with an explicit (non-`SymbolAttributes`) default `d`
   | getitem (i : Nat) (k : Name)
   | lookup (i : Nat) (k : Name) (recursive : Bool)
   | contains (i : Nat) (k : Name)
   | del (i : Nat) (k : Name)
   | pop (i : Nat) (k : Name)
   | popd (i : Nat) (k : Name)                       -- `t.pop(k, None)`
+  | popdv (i : Nat) (k : Name) (d : Nat)            -- `t.pop(k, d)` with an explicit default `d`
   | clone (i : Nat) (pk : PK)
   | setparent (i : Nat) (p : Option Nat)            -- `t.parent = …` (bare tables only)
   | declare (i : Nat) (k : Name) (c : Nat) (fail : Bool)
@@ -117,6 +120,7 @@ deriving Repr
 
 inductive Out where
   | unit | none | val (c : Nat) | bool (b : Bool) | keyError | valueError | scope (i : Nat) | recursion | bad
+  | dflt (d : Nat)      -- the caller's explicit default object was returned
 deriving Repr, DecidableEq
 
 /-- `SymbolTable._lookup_formatted_name(name, recursive)`; the fuel bounds the recursion through parents
@@ -211,6 +215,14 @@ def step (s : St) (op : Op) : St × Out :=
     match s.tabs[i]? with
     | some _ => ret s (lookup s i k false)               -- `value.clone() if value is not None else default`
     | none => (s, .bad)
+  | .getd i k d =>
+    match s.tabs[i]? with
+    | some _ =>
+      -- `value = self.lookup(key, recursive=False); return value.clone() if value is not None else default`
+      match lookup s i k false with
+      | .none => (s, .dflt d)
+      | o => ret s o
+    | none => (s, .bad)
   | .getitem i k =>
     match s.tabs[i]? with
     | some _ =>
@@ -248,6 +260,13 @@ def step (s : St) (op : Op) : St × Out :=
       match alookup (fold k) t.ents with
       | some v => ret (setEnts s i t (aerase (fold k) t.ents)) (.val v)
       | none => (s, .none)
+    | none => (s, .bad)
+  | .popdv i k d =>
+    match s.tabs[i]? with
+    | some t =>
+      match alookup (fold k) t.ents with
+      | some v => ret (setEnts s i t (aerase (fold k) t.ents)) (.val v)
+      | none => (s, .dflt d)
     | none => (s, .bad)
   | .clone i pk =>
     match s.tabs[i]? with
@@ -323,11 +342,13 @@ deriving Repr, DecidableEq
 inductive DOp where
   | set (k : Name) (v : Nat)
   | get (k : Name)
+  | getd (k : Name) (d : Nat)        -- `d.get(k, default)`
   | getitem (k : Name)
   | contains (k : Name)
   | del (k : Name)
   | pop (k : Name)
   | popd (k : Name)
+  | popdv (k : Name) (d : Nat)       -- `d.pop(k, default)`
   | setdefault (k : Name) (v : Nat)
   | update (kvs : List (Name × Nat))
 deriving Repr
@@ -338,6 +359,7 @@ def dstep (kind : DKind) (d : DSt) (op : DOp) : DSt × Out :=
   match op with
   | .set k v => (aset (lower k) v d, .unit)
   | .get k => (d, match alookup (lower k) d with | some v => .val v | none => .none)
+  | .getd k dv => (d, match alookup (lower k) d with | some v => .val v | none => .val dv)   -- `super().get(key, default)`
   | .getitem k =>
     match alookup (lower k) d with
     | some v => (d, .val v)
@@ -358,6 +380,10 @@ def dstep (kind : DKind) (d : DSt) (op : DOp) : DSt × Out :=
     match alookup (lower k) d with
     | some v => (aerase (lower k) d, .val v)
     | none => (d, .none)
+  | .popdv k dv =>
+    match alookup (lower k) d with
+    | some v => (aerase (lower k) d, .val v)
+    | none => (d, .val dv)
   | .setdefault k v =>
     -- ordered: `OrderedDict.setdefault` on a subclass (`key in self` → `self[key]`, else `self[key] = default`);
     -- default dict: the override lower-cases the key and calls `dict.setdefault`
